@@ -417,7 +417,7 @@ def r8(R):
 
 @rule('C12.R9', 'before savepoint data is replayed into the real storage, '
       'every oid it holds is recorded for invalidation and every created '
-      'object for disowning', props=['C11'], min_instances=1)
+      'object for disowning', props=['C11', 'C02'], min_instances=1)
 def r9(R):
     conn = R.prog.cls(CONN)
     f = R.method(conn, '_commit_savepoint')
@@ -471,3 +471,55 @@ def r9(R):
     R.require(seen[0] or vs, '_commit_savepoint no longer replays stores')
     for v in vs:
         R.violation(v.node, v.message, g, v.path)
+
+
+# ------------------------------------------------------------------ C12.R10
+DATA_READS = {'load', 'loadBefore', 'loadSerial', 'loadBlob',
+              'openCommittedBlobFile'}
+
+
+@rule('C12.R10', 'a blob reads committed data only through what its '
+      'connection gave it (the connection\'s storage is the savepoint store '
+      'while savepoints are active); it never goes to the database\'s '
+      'storage for data', props=['C13'], min_instances=1)
+def r10(R):
+    cls = R.prog.cls('ZODB.blob.Blob')
+    n = 0
+    for name, f in sorted(cls.methods.items()):
+        for c in ast.walk(f.node):
+            if not (isinstance(c, ast.Call) and isinstance(
+                    c.func, ast.Attribute)):
+                continue
+            # resolve `storage = self._p_jar.db()._storage` style locals
+            recv = c.func.value
+            seen = 0
+            while isinstance(recv, ast.Name) and seen < 3:
+                ds = [a.value for a in ast.walk(f.node)
+                      if isinstance(a, ast.Assign) and any(
+                          isinstance(t, ast.Name) and t.id == recv.id
+                          for t in a.targets)]
+                if len(ds) != 1:
+                    break
+                recv, seen = ds[0], seen + 1
+            text_nodes = list(ast.walk(recv))
+            via_db = any(isinstance(x, ast.Call) and isinstance(
+                x.func, ast.Attribute) and x.func.attr == 'db'
+                for x in text_nodes) or any(
+                    isinstance(x, ast.Attribute) and x.attr in (
+                        '_db', '_normal_storage') for x in text_nodes)
+            if any(isinstance(x, ast.Attribute) and x.attr == '_p_jar'
+                   for x in text_nodes):
+                n += 1
+                R.instance('Blob.%s: %s' % (name, ast.unparse(c)[:60]))
+            if via_db and c.func.attr in DATA_READS:
+                R.violation(
+                    (f.module.relpath, f.qualname,
+                     ' '.join(ast.unparse(c).split())[:100], c.lineno),
+                    'Blob.%s reads blob data through the DATABASE\'s storage '
+                    '(`%s`): while savepoints are active the current state '
+                    'of the blob lives in the connection\'s savepoint store, '
+                    'so this reads the last committed revision instead (or '
+                    'fails for a blob created in this transaction)' % (
+                        name, ast.unparse(c.func)),
+                    key='data read through the database storage')
+    R.require(n >= 1, 'Blob no longer talks to its connection')
